@@ -4,6 +4,7 @@ import (
 	"reflect"
 	"time"
 
+	mapset "github.com/deckarep/golang-set/v2"
 	"github.com/karagenc/socket.io-go/adapter"
 	eioparser "github.com/karagenc/socket.io-go/engine.io/parser"
 	"github.com/karagenc/socket.io-go/parser"
@@ -100,3 +101,5 @@ func verifInRoom(n *Namespace, sid SocketID, room Room) bool {
 	rooms, ok := n.adapter.SocketRooms(sid)
 	return ok && rooms.Contains(room)
 }
+
+func verifNoRooms() mapset.Set[Room] { return mapset.NewSet[Room]() }
